@@ -58,11 +58,22 @@ func Range[T Number](args ...T) ([]T, error) {
 		for i := start; i < end; i += step {
 			n, _ := N[T](NumToString(i))
 			result = append(result, T(n))
+			if end-i <= step {
+				// The next value reaches the end. Leaving here instead of relying
+				// on the loop test keeps i += step from wrapping around when the
+				// end is close to the largest value of the type.
+				break
+			}
 		}
 	} else {
 		for i := start; end < i; i -= Abs(step) {
 			n, _ := N[T](NumToString(i))
 			result = append(result, T(n))
+			if i-end <= Abs(step) {
+				// Same for the descending direction (an unsigned i would wrap
+				// around below zero and never meet the loop test).
+				break
+			}
 		}
 	}
 
